@@ -8,7 +8,8 @@ Objects carry a ghost `owner` (the request between `Acquire…` and `Release…`
 or not yet allocated). `ReleaseResponse` resets the response, `releaseErrChan` does *not* drain the
 channel. A step of the system is an `Action`; a schedule is a list of actions (disabled ones are
 skipped), so `run` covers every interleaving, every timing of `ctx.Done()` and of the server's
-answer, and every pool behaviour (`start` names which pooled/new objects the request gets).
+answer (or of a transport error), and every pool behaviour (`start` names which pooled/new objects
+the request gets).
 
 `fixed = true` is the repaired `case <-c.ctx.Done()` branch (wait for the channel when the swap
 finds the flag already set); `fixed = false` is the code before /repo commit "client waits for a
@@ -22,6 +23,7 @@ inductive MPc where
   | swap        -- took the ctx.Done branch, about to `atomic.SwapInt32(&done, 1)`
   | drain       -- (repaired) swap returned 1: waiting for `<-errCh`
   | rel         -- about to `ReleaseResponse(resp)`, return ErrTimeoutOrCancel (deferred releaseErrChan)
+  | relE        -- received an error: about to `ReleaseResponse(resp)`, return it (deferred releaseErrChan)
   | holding     -- returned `resp, nil`; the caller holds the response until `Close`
   | finished    -- returned an error, or closed the response
   deriving Repr, DecidableEq
@@ -30,27 +32,36 @@ inductive WPc where
   | none        -- not spawned
   | doing       -- inside `fasthttp.Do`
   | cas         -- about to `CompareAndSwapInt32(&done, 0, 1)`
-  | copy        -- won the CAS: about to `respv.CopyTo(resp.RawResponse)`
-  | send        -- about to `errCh <- nil`
+  | copy        -- won the CAS, no error: about to `respv.CopyTo(resp.RawResponse)`
+  | send        -- about to `errCh <- err` / `errCh <- nil`
   | exit
+  deriving Repr, DecidableEq
+
+/-- what the caller of `execFunc` (and then of `Close`) finally saw -/
+inductive Outcome where
+  | timeout                  -- ErrTimeoutOrCancel
+  | failed                   -- the error `fasthttp.Do` returned
+  | response (of : Option Nat)   -- a response carrying the answer to request `of` (`none`: a blank one)
   deriving Repr, DecidableEq
 
 structure Req where
   m : MPc := .idle
   w : WPc := .none
   done : Bool := false
+  err : Bool := false            -- `fasthttp.Do` returned an error
+  fired : Bool := false          -- ghost: this request's context fired
   resp : Nat := 0
   chan : Nat := 0
-  result : Option (Option Nat) := none   -- what the caller finally saw: some none = timeout, some (some id) = response of request id
+  result : Option Outcome := none
   deriving Repr, DecidableEq
 
 structure G where
   reqs : Nat → Req
-  rOwner : Nat → Option Nat      -- Response object ↦ owning request
-  cOwner : Nat → Option Nat      -- channel ↦ owning request
-  rData : Nat → Option Nat       -- whose answer the Response object carries
-  cBuf : Nat → Option Nat        -- buffered value, tagged with the sending request
-  bad : Bool                     -- a write hit an object of another request / a caller got a foreign answer
+  rOwner : Nat → Option Nat          -- Response object ↦ owning request
+  cOwner : Nat → Option Nat          -- channel ↦ owning request
+  rData : Nat → Option Nat           -- whose answer the Response object carries
+  cBuf : Nat → Option (Nat × Bool)   -- buffered value: (sending request, is an error)
+  bad : Bool                         -- a write hit an object of another request / a caller got a foreign answer
 
 def G.init : G :=
   { reqs := fun _ => {}, rOwner := fun _ => none, cOwner := fun _ => none,
@@ -63,7 +74,8 @@ inductive Action where
   | recv (i : Nat)          -- main: the `case err := <-errCh` branch
   | timeout (i : Nat)       -- main: the `case <-c.ctx.Done()` branch is taken (context fired)
   | main (i : Nat)          -- main: next internal step (swap / drain / release)
-  | worker (i : Nat)        -- worker: next step
+  | worker (i : Nat)        -- worker: next step (`fasthttp.Do` returns without error)
+  | fail (i : Nat)          -- worker: `fasthttp.Do` returns an error
   | close (i : Nat)         -- the caller reads and closes the response it was given
   deriving Repr, DecidableEq
 
@@ -80,15 +92,19 @@ def step (fixed : Bool) (g : G) : Action → Option G
     let q := g.reqs i
     if q.m = .select then
       match g.cBuf q.chan with
-      | some s =>
+      | some (s, false) =>
         some { g with reqs := upd g.reqs i { q with m := .holding },
                       cBuf := upd g.cBuf q.chan none, cOwner := upd g.cOwner q.chan none,
+                      bad := g.bad || decide (s ≠ i) }
+      | some (s, true) =>
+        some { g with reqs := upd g.reqs i { q with m := .relE },
+                      cBuf := upd g.cBuf q.chan none,
                       bad := g.bad || decide (s ≠ i) }
       | none => none
     else none
   | .timeout i =>
     let q := g.reqs i
-    if q.m = .select then some { g with reqs := upd g.reqs i { q with m := .swap } } else none
+    if q.m = .select then some { g with reqs := upd g.reqs i { q with m := .swap, fired := true } } else none
   | .main i =>
     let q := g.reqs i
     match q.m with
@@ -96,11 +112,15 @@ def step (fixed : Bool) (g : G) : Action → Option G
       some { g with reqs := upd g.reqs i { q with done := true, m := if fixed && q.done then .drain else .rel } }
     | .drain =>
       match g.cBuf q.chan with
-      | some s => some { g with reqs := upd g.reqs i { q with m := .rel }, cBuf := upd g.cBuf q.chan none,
-                                bad := g.bad || decide (s ≠ i) }
+      | some (s, _) => some { g with reqs := upd g.reqs i { q with m := .rel }, cBuf := upd g.cBuf q.chan none,
+                                     bad := g.bad || decide (s ≠ i) }
       | none => none
     | .rel =>
-      some { g with reqs := upd g.reqs i { q with m := .finished, result := some none },
+      some { g with reqs := upd g.reqs i { q with m := .finished, result := some .timeout },
+                    rOwner := upd g.rOwner q.resp none, rData := upd g.rData q.resp none,
+                    cOwner := upd g.cOwner q.chan none }
+    | .relE =>
+      some { g with reqs := upd g.reqs i { q with m := .finished, result := some .failed },
                     rOwner := upd g.rOwner q.resp none, rData := upd g.rData q.resp none,
                     cOwner := upd g.cOwner q.chan none }
     | _ => none
@@ -110,20 +130,26 @@ def step (fixed : Bool) (g : G) : Action → Option G
     | .doing => some { g with reqs := upd g.reqs i { q with w := .cas } }
     | .cas =>
       if q.done then some { g with reqs := upd g.reqs i { q with w := .exit } }
-      else some { g with reqs := upd g.reqs i { q with w := .copy, done := true } }
+      else some { g with reqs := upd g.reqs i { q with w := if q.err then .send else .copy, done := true } }
     | .copy =>
       some { g with reqs := upd g.reqs i { q with w := .send }, rData := upd g.rData q.resp (some i),
                     bad := g.bad || decide (g.rOwner q.resp ≠ some i) }
     | .send =>
       match g.cBuf q.chan with
       | some _ => none          -- a full channel would block the sender
-      | none => some { g with reqs := upd g.reqs i { q with w := .exit }, cBuf := upd g.cBuf q.chan (some i),
+      | none => some { g with reqs := upd g.reqs i { q with w := .exit }, cBuf := upd g.cBuf q.chan (some (i, q.err)),
                               bad := g.bad || decide (g.cOwner q.chan ≠ some i) }
+    | _ => none
+  | .fail i =>
+    let q := g.reqs i
+    match q.w with
+    | .doing => some { g with reqs := upd g.reqs i { q with w := .cas, err := true } }
     | _ => none
   | .close i =>
     let q := g.reqs i
     if q.m = .holding then
-      some { g with reqs := upd g.reqs i { q with m := .finished, result := some (g.rData q.resp) },
+      some { g with reqs := upd g.reqs i { q with m := .finished,
+                                                  result := some (.response (g.rData q.resp)) },
                     rOwner := upd g.rOwner q.resp none, rData := upd g.rData q.resp none,
                     bad := g.bad || decide (g.rData q.resp ≠ some i) }
     else none
